@@ -63,8 +63,8 @@ def check_extend_sites(ctx, rep, rule):
     for (b, bb, t, sl) in sites:
         k = fn_key(b)
         ordn[k] = ordn.get(k, 0) + 1
-        marked = "packs_to_delete" in sl["fields"]
-        unmarked = "packs" in sl["fields"] or any(c.endswith("IndexFile::all_packs") for c in sl["calls"])
+        marked = "packs_to_delete" in sl["fields"] or any(c.endswith("IndexFile::all_packs") for c in sl["calls"])
+        unmarked = "packs" in sl["fields"]
         via_calls = sorted(strip_crate(c) for c in sl["calls"] if "rustic_core" in c)
         if marked:
             # frozen exception: the prune planner's OnlyTrees collector (used-blob search must not abort on marked
